@@ -105,6 +105,10 @@ func TestWorker(t *testing.T) {
 		if *fWall > 0 && time.Since(w0) > *fWall {
 			break
 		}
+		if workerHung {
+			out.Aborts = append(out.Aborts, fmt.Sprintf("runs %d..%d not executed: an earlier run of this worker process never finished", i, *fTo-1))
+			break
+		}
 		rs := RunSpec{Prop: *fProp, Seed: *fSeed, Index: i, Tier: *fTier, Family: *fFamily}
 		r := execRun(t, rs, *fTrace)
 		if *fTrace {
@@ -202,6 +206,13 @@ func TestWorker(t *testing.T) {
 		}
 	} else {
 		fmt.Println(string(b))
+	}
+	if workerHung {
+		// goroutines of the unfinished run are still around: leave without waiting for them
+		if fifoDir != "" {
+			os.RemoveAll(fifoDir)
+		}
+		os.Exit(0)
 	}
 }
 
